@@ -2,7 +2,9 @@
 
 proof:  Props/C02.lean (encode_refframe, wire_refframe, encodeWire_refframe, encodeWire_refused_unchanged)
 tie:    model encode / encodeWire vs Codec.encode / AsyncFIXConnection.send_msg (bytes at a fake transport)
-oracle: independent frame parser `ref_parse_strict` on every byte string the real code produces, incl. all
+oracle: independent frame parser `ref_parse_strict` on every byte string the real code produces on ANY transport through ANY
+        entry point (send_msg, the dummy server's accept path with further clients connecting, the client's connect()
+        path, disconnect(logout_message) texts of every value class, the tester's mock sockets), incl. all
         transport writes of scripted session histories (logon, heartbeats, resend replays - also repeated and
         overlapping ones -, gap fills, logout, reconnect; initiator and acceptor), ONE write call per frame, and the
         transport's byte stream cut into frames by BodyLength while several coroutines send concurrently
@@ -460,7 +462,8 @@ def history(hseed):
             pass
         await traffic(rng.randint(3, 14))
         try:
-            await c.disconnect(ConnectionState.DISCONNECTED_WCONN_TODAY, logout_message=rng.choice(["bye", "", "r\xe9son"]))
+            await c.disconnect(ConnectionState.DISCONNECTED_WCONN_TODAY,
+                               logout_message=rng.choice(["bye", "", "r\xe9son"]) if rng.random() < 0.6 else special(rng, False))
         except Exception:  # noqa
             pass
         if rng.random() < 0.3:
@@ -550,6 +553,224 @@ def check_interleave(iseed, failures):
     return len(writes)
 
 
+class _W2(_W):
+    """fake StreamWriter of an accepted / opened connection"""
+
+    def __init__(self, name, yields=1):
+        super().__init__(yields)
+        self.name = name
+        self.closed = False
+
+    def close(self):
+        self.closed = True
+
+    def get_extra_info(self, *_a, **_k):
+        return ("127.0.0.1", 1)
+
+
+def entry_points(eseed):
+    """every byte the library writes to ANY transport through ANY entry point: returns [(entry point, raw write)].
+    Derived from `eseed` alone.  Scenarios:
+      server  - AsyncFIXDummyServer._handle_accept with fake reader/writer pairs: first client, logon, traffic, then a
+                SECOND (and third) connection accepted while a client is connected, more traffic, logout;
+      client  - AsyncFIXClient.connect() with a patched asyncio.open_connection (success / refusal / second connect
+                while connected / reconnect after disconnect), an on_connect hook that sends the Logon, traffic,
+                disconnect(logout_message=<text of any value class>);
+      tester  - FIXTester's mock sockets around an initiator connection (logon exchange, application messages,
+                TestRequest / Heartbeat), every write() of both mock writers."""
+    import random
+    import types
+    import asyncfix.connection as cm
+    import asyncfix.connection_client as cc
+    import asyncfix.connection_server as csrv
+    from asyncfix import FIXMessage, FMsg
+    from asyncfix.connection import ConnectionState
+    from asyncfix.journaler import Journaler
+
+    rng = random.Random("c02-entry:%s" % eseed)
+    logging.disable(logging.CRITICAL)
+    scen = rng.choice(["server", "server", "client", "client", "tester"])
+    writers = []
+    out = []
+
+    def new_writer(name):
+        w = _W2(name, rng.choice([0, 1, 2]))
+        writers.append(w)
+        return w
+
+    def text():
+        r = rng.random()
+        return rng.choice(["bye", "", "r\xe9son", "a=b", "10=000"]) if r < 0.4 else special(rng, False)
+
+    def app_msg():
+        mt, tree = K.gen_wf_msg(rng)
+        if rng.random() < 0.4 and tree and tree[0][0] == "L":
+            tree[0] = ("L", tree[0][1], tree[0][2] + special(rng))
+        return K.build_container(tree, mtype=mt)
+
+    class Hooks:
+        logon_on_connect = False
+
+        async def on_message(self, msg):
+            pass
+
+        async def on_connect(self):
+            if self.logon_on_connect:
+                await self.send_msg(FIXMessage(FMsg.LOGON, {98: 0, 108: 30}))
+
+    async def no_tasks(self_):
+        return None
+
+    saved_connect = cm.AsyncFIXConnection.connect
+    cm.AsyncFIXConnection.connect = no_tasks          # no background reader / heartbeat tasks
+    try:
+        if scen == "server":
+            class Srv(Hooks, csrv.AsyncFIXDummyServer):
+                pass
+
+            c = Srv(K.proto(), "SND", "TGT", Journaler(), "h", 1, 30)
+            c._codec.current_datetime = lambda: NOW
+            peer_s, frame = peer_tools()
+
+            async def guard(coro):
+                try:
+                    await coro
+                except Exception:  # noqa  refusals are fine: only what reaches a transport matters
+                    pass
+
+            async def run():
+                await guard(c._handle_accept(object(), new_writer("server-accept:first")))
+                if rng.random() < 0.85:
+                    d, raw = frame(FMsg.LOGON, {98: 0, 108: 30})
+                    await guard(c._process_message(d, raw))
+                for _ in range(rng.randint(0, 3)):
+                    await guard(c.send_msg(app_msg()))
+                for k in range(rng.choice([1, 1, 2])):
+                    # another client connects while one is connected
+                    await guard(c._handle_accept(object(), new_writer("server-accept:extra%d" % (k + 1))))
+                    for _ in range(rng.randint(0, 2)):
+                        await guard(c.send_msg(app_msg()))
+                    if rng.random() < 0.5:
+                        d, raw = frame(FMsg.TESTREQUEST, {112: "T"})
+                        await guard(c._process_message(d, raw))
+                await guard(c.disconnect(ConnectionState.DISCONNECTED_WCONN_TODAY, logout_message=text()))
+
+            asyncio.run(run())
+        elif scen == "client":
+            class Cli(Hooks, cc.AsyncFIXClient):
+                pass
+
+            c = Cli(K.proto(), "SND", "TGT", Journaler(), "h", 1, 30)
+            c._codec.current_datetime = lambda: NOW
+            c.logon_on_connect = rng.random() < 0.7
+            peer_s, frame = peer_tools()
+            fail_next = [rng.random() < 0.2]
+
+            async def open_connection(host, port):
+                if fail_next[0]:
+                    fail_next[0] = False
+                    raise OSError("refused")
+                return object(), new_writer("client-connect:%d" % (len(writers) + 1))
+
+            saved_async = cc.asyncio
+            proxy = types.SimpleNamespace(open_connection=open_connection)
+            cc.asyncio = proxy
+
+            async def guard(coro):
+                try:
+                    await coro
+                except Exception:  # noqa
+                    pass
+
+            async def session():
+                await guard(c.connect())
+                if c._socket_writer is None:
+                    await guard(c.connect())             # retry after the refusal
+                if not c.logon_on_connect:
+                    await guard(c.send_msg(FIXMessage(FMsg.LOGON, {98: 0, 108: 30})))
+                if rng.random() < 0.85:
+                    d, raw = frame(FMsg.LOGON, {98: 0, 108: 30})
+                    await guard(c._process_message(d, raw))
+                if rng.random() < 0.3:
+                    await guard(c.connect())             # already connected: must raise, nothing written
+                for _ in range(rng.randint(0, 3)):
+                    await guard(c.send_msg(app_msg()))
+                await guard(c.disconnect(ConnectionState.DISCONNECTED_WCONN_TODAY, logout_message=text()))
+
+            async def run():
+                await session()
+                if rng.random() < 0.4:
+                    await session()                      # reconnect of the same object
+
+            try:
+                asyncio.run(run())
+            finally:
+                cc.asyncio = saved_async
+        else:
+            from asyncfix.fix_tester import FIXTester
+
+            class Cli(Hooks, cm.AsyncFIXConnection):
+                pass
+
+            c = Cli(K.proto(), "SND", "TGT", Journaler(), "h", 1, 30)
+            c._codec.current_datetime = lambda: NOW
+            c._connection_state = ConnectionState.NETWORK_CONN_ESTABLISHED
+            ft = FIXTester(connection=c)
+            for conn, name in ((c, "tester:initiator-mock"), (ft.conn_accept, "tester:acceptor-mock")):
+                w = new_writer(name)
+                orig = conn._socket_writer.write.side_effect
+
+                def rec(data, w=w, orig=orig):
+                    w.out.append(bytes(data))
+                    return orig(data)
+
+                conn._socket_writer.write.side_effect = rec
+
+            async def guard(coro):
+                try:
+                    await coro
+                except BaseException as e:  # noqa  (the tester asserts on what it cannot decode)
+                    if isinstance(e, (KeyboardInterrupt, SystemExit)):
+                        raise
+
+            async def run():
+                await guard(c.send_msg(ft.msg_logon()))
+                await guard(ft.process_msg_acceptor())
+                for _ in range(rng.randint(1, 4)):
+                    r = rng.random()
+                    if r < 0.6:
+                        await guard(c.send_msg(FIXMessage("D", {11: "id%d" % rng.randint(1, 99), 58: text()})))
+                        if ft.acceptor_rcv_que:
+                            await guard(ft.process_msg_acceptor())
+                    elif r < 0.8:
+                        await guard(ft.reply(ft.msg_test_request("T%d" % rng.randint(1, 9))))
+                        if ft.acceptor_rcv_que:
+                            await guard(ft.process_msg_acceptor())
+                    else:
+                        await guard(ft.conn_accept.send_msg(FIXMessage("8", {37: "o1", 58: text()})))
+                await guard(c.disconnect(ConnectionState.DISCONNECTED_WCONN_TODAY, logout_message=text()))
+
+            asyncio.run(run())
+    finally:
+        cm.AsyncFIXConnection.connect = saved_connect
+    for w in writers:
+        for raw in w.out:
+            out.append((w.name, raw))
+    return scen, out
+
+
+def check_entry_points(eseed, failures):
+    scen, writes = entry_points(eseed)
+    _count("entry:" + scen)
+    for name, raw in writes:
+        x = classify(raw, name.rstrip("0123456789").rstrip(":"))
+        if x:
+            x["input"]["entry_seed"] = eseed
+            x["input"]["writer"] = name
+            failures.append(x)
+    return len(writes)
+
+
 def check_bridge_case(simpl, bcase, failures):
     """implementation-only re-run of a session-level step / chain on which model and code disagreed"""
     from . import bridge_check
@@ -594,13 +815,18 @@ def oracle(ctx, disagreements, broken):
     for sp in specs:
         n_frames += check_case(impl, K.sized_case(sp), {"sized": sp}, failures)
     # 3. histories, 4. concurrent senders
-    nh = ctx.n(150, 1500) * (2 if broken else 1)
+    nh = ctx.n(120, 1500) * (2 if broken else 1)
     for _ in range(nh):
         n_frames += check_history(rng.randrange(1 << 40), failures)
     ni = ctx.n(25, 250) * (2 if broken else 1)
     for _ in range(ni):
         n_frames += check_interleave(rng.randrange(1 << 40), failures)
+    # 5. other entry points / other transports: server accept path, client connect path, the tester's mock sockets
+    ne = ctx.n(80, 800) * (2 if broken else 1)
+    for _ in range(ne):
+        n_frames += check_entry_points(rng.randrange(1 << 40), failures)
     ctx.oracle_stats = {"frames_parsed_by_reference_parser": n_frames, "histories": nh, "interleavings": ni, "sized": len(specs),
+                        "entry_point_scenarios": ne,
                         "replayed_disagreements": sum(len(v) for v in first.values()), "failures": len(failures),
                         "value_classes_and_sizes": dict(sorted(STATS.items()))}
     return failures
@@ -613,6 +839,8 @@ def replay(ctx, rp):
         check_history(inp["history_seed"], failures)
     elif "interleave_seed" in inp:
         check_interleave(inp["interleave_seed"], failures)
+    elif "entry_seed" in inp:
+        check_entry_points(inp["entry_seed"], failures)
     elif "bridge_case" in inp:
         from . import bridge_check
         from . import sess_common as S
